@@ -766,6 +766,7 @@ def _legacy_setups():
 
 SAMPLE_GRID = [(N, Nb) for N in (1, 2, 3, 4) for Nb in (0, 1, 2, 3)]
 ADAPT_GRID = [(N, Nb) for N in (10, 12) for Nb in (0, 2, 5)]
+LONG_GRID = [(150, 60), (205, 0)]
 
 
 class LObs:
@@ -867,6 +868,21 @@ def eval_legacy(cell, res):
             res.evaluations += 1
             moved = moved or len({tuple(np.round(v, 12)) for v in o.chain}) > 1
             bad = _judge_legacy(o, N, Nb, full.get(N + Nb), burnin_equiv and method == "sample")
+            if bad:
+                found.setdefault(bad[0], (bad[1], {"N": N, "Nb": Nb}))
+        # long horizon: book-keeping that is throttled / batched by the chain length (progress printing every
+        # Ns//100 steps, adaptation windows) only shows on chains of a few hundred states
+        for N, Nb in LONG_GRID:
+            o = run_legacy(setup, cat, seed, method, N, Nb)
+            res.transitions += N + Nb - 1
+            res.state((method, N, Nb))
+            if o.error is not None:
+                res.refused += 1
+                res.outcomes.add("%s:%s:long-refused:%s" % (setup, method, o.error[1][:50]))
+                continue
+            res.traces += 1
+            res.evaluations += 1
+            bad = _judge_legacy(o, N, Nb, None, False)
             if bad:
                 found.setdefault(bad[0], (bad[1], {"N": N, "Nb": Nb}))
         for facet in FACET_PRIORITY:
